@@ -74,7 +74,12 @@ def one_case(behaviours, outgoing, reliable, handler_raises, kind="chat"):
     try:
         h.open_circuits()
         region = h.session.regions[0]
-        if handler_raises:
+        waiter = None
+        if handler_raises == "region_waiter":
+            # the proxy's own one-shot wait (MessageHandler.wait_for) for either of two message names, taking by default: the first
+            # matching message belongs to whoever waits; the wait is over then, later messages of either name are not its business
+            waiter = region.message_handler.wait_for((("ChatFromViewer" if outgoing else "ChatFromSimulator"), "CompletePingCheck"), take=True)
+        elif handler_raises:
             def bad_handler(msg):
                 raise Boom("subscriber failure")
 
@@ -126,7 +131,7 @@ def one_case(behaviours, outgoing, reliable, handler_raises, kind="chat"):
         fin = queued = False
         wire = 0
         handled = False
-        for b in behaviours:
+        for b in (["take"] if waiter is not None else []) + list(behaviours):
             if b == "truthy":
                 handled = True
                 break
@@ -228,7 +233,7 @@ def bounded_addons(reg, tier, seed):
         rng.shuffle(trip)
         combos += trip[:60]
     for bs in combos:
-        variants = list(itertools.product((True, False), (True, False), (None, "session", "region", "session_pred", "region_pred"), ("chat",)))
+        variants = list(itertools.product((True, False), (True, False), (None, "session", "region", "session_pred", "region_pred", "region_waiter"), ("chat",)))
         other = list(itertools.product((True, False), (True, False), (None, "region"), ("truncated", "teardown")))
         if tier == "quick" and len(bs) > 1:
             variants = [rng.choice(variants), rng.choice(other)]
